@@ -27,6 +27,12 @@ CLAIMED = {
  "C18": dict(level="fault_enumeration", oracle="loaded bindings vs bindings of the file before/after the interrupted disk operation; protocol probes after restart",
    text="DHCP histories run with the lease file on the simulated disk, which records every write/rename. For every explored history the crash-point space is then enumerated: every byte prefix of every write (complete for the last rewrites, strided for older ones in the quick tier, complete in the thorough tier) and every point between disk operations, plus single-byte substitutions, line deletions and duplications of the intact file and live ENOSPC/EIO faults. Each state is followed by a crash-restart (new Session and handler, only durable bytes survive) under a panic trap; loaded bindings must come from the file as it was before or after the interrupted operation, lie in the home subnet and carry a client id; after an intact restart renewals are acknowledged and held addresses are not offered to strangers. Histories are sampled; the crash points of each history are enumerated and counted.",
    ref="DESIGN.md section 4 (C18)"),
+ "C13": dict(level="exploration", oracle="transport log x call log (event sequence numbers, virtual time): confinement, probe-reject conditions, periodicity, undo, close",
+   text="Concurrent simulation of the real ARP handler: API tasks call StartHunt/StopHunt (repeated, overlapping, restart inside a cycle) while ARP-host nodes send requests, probes, announcements and replies and DHCP offers are recorded; 6 s spoof cycles run on the virtual clock under seeded interleavings and (in a share of runs) injected stalls. Every ARP frame written is classified by the independent decoder and checked against the call log: forged frames only to hunted hosts, forged replies only for router requests of hunted hosts, probe rejects only under the stated conditions; without stalls also one frame per cycle, a restoring frame within one cycle of StopHunt, silence after Close and no surviving spoof goroutine.",
+   ref="DESIGN.md section 4 (C13)"),
+ "C19": dict(level="exploration", oracle="per-ping oracle over the responder's delivery plan (identifier read from the ping's own echo request)",
+   text="Concurrent simulation: 1-6 pinger tasks call Ping/Ping6 with timeouts from <=0 to >10 s while an echo responder inside the simulated wire answers each captured request after a chosen latency (before, at, after the deadline) or drops it, duplicates, answers with a foreign identifier, an echo request or a truncated message, and unsolicited replies with guessed identifiers arrive. nil iff a matching well-formed reply was delivered while pending (exact without stalls, one-directional with stalls), ErrTimeout exactly at the deadline, distinct identifiers for overlapping pings, no waiter left.",
+   ref="DESIGN.md section 4 (C19)"),
 }
 
 NA = {
